@@ -36,7 +36,7 @@ THEOREMS = [
     for n in (
         "base_sets_disjoint superset_is_union superset_is_union_bitwise user_sets_separate inSet_subword table_partition mksetpv_refuses_iff mksetpv_spec mksetpv_named expanddof_digits expanddof2_spec lookup_sound lookup_complete mkdofpv_strict_iff mkdofpv_spec mkdofpv_positions mkdofpv_set mat_intersect_spec find_subseq_spec list_intersect_spec flippv_spec index2bool_spec normIndex_spec find_vals_spec find_rows_spec find_unique_spec find_duplicates_spec index2slice_cases index2slice_spec merge_lists_spec merge_lists_inserts mkusetmask_plus mksetpv_plus make_uset_sets make_uset_accepts make_uset_sets_partial make_uset_split_rows make_uset_ids make_uset_coords_partial upasetpv_spec scatter_spec upqsetpv_length upqsetpv_one_upstream qupOwn_spec "
         "upqsetpv_fuel_stable upqsetpv_fuel_suffices upqsetpv_cycle_diverges cyclic_not_acyclic QConn_iff upqsetpv_spec canFlag_of_flagged separate_of_check upqIdx_eq_upasetpv upasetpv_perm mat_intersect_order mat_intersect_keep1 mat_intersect_keep2 mat_intersect_keep0 mat_intersect_keep_other findse_spec findse_find? nodeIds_spec nodeIds_make xyz_triple_exact find_xyz_triples_exact "
-        "formtran_partition_identity formtran_aset_identity formtran_columns_are_target_set ulvsPath_spec ulvsLoop_chain formulvs_chain_is_product formulvs_noshortcut formulvs_cases formdrm_is_rows_of_formtran formdrm_same_se addulvs_consistent memberCol_spec usetprt_table_is_partition_listing mask_expression_is_union mask_expression_members mask_expression_append mask_expression_absorbs mkdofpv_expression find_subseq_mem_iff find_subseq_errors find_rows_other_length mat_intersect_duplicates index_helpers_refuse_together upqsetpv_never_returns_of_progress upqsetpv_cyclic_diverges formtran0_gset formtran0_gset_repeated formtran0_phg formtran0_pha formtran_mset_composition dotChain_append ulvsPath_mono ulvsPath_split"
+        "formtran_partition_identity formtran_aset_identity formtran_columns_are_target_set ulvsPath_spec ulvsLoop_chain formulvs_chain_is_product formulvs_noshortcut formulvs_cases formdrm_is_rows_of_formtran formdrm_same_se addulvs_consistent memberCol_spec usetprt_table_is_partition_listing mask_expression_is_union mask_expression_members mask_expression_append mask_expression_absorbs mkdofpv_expression find_subseq_mem_iff find_subseq_errors find_rows_other_length mat_intersect_duplicates index_helpers_refuse_together upqsetpv_never_returns_of_progress upqsetpv_cyclic_diverges formtran0_gset formtran0_phg formtran0_pha formtran_mset_composition dotChain_append ulvsPath_mono ulvsPath_split"
     ).split()
 ]
 TRUSTED = [
@@ -141,13 +141,14 @@ PARTIAL = (
     "s-set rows for any ring-like entry type (formtran_partition_identity, formtran_aset_identity), m-set rows in closed "
     "form over a semiring (formtran_mset_composition: GM composed with the n-set rows, the np.any(gmo, 0) pruning "
     "shown irrelevant) under the hypotheses that no DOF is in the t- and the q-set at once and that got / goq rows have "
-    "their declared width; residual: formtran0_gset (for requests without a repeated DOF), formtran0_phg, "
+    "their declared width; residual: formtran0_gset (every request, also with repeated DOF: the code since fix "
+    "061ccd9), formtran0_phg, "
     "formtran0_pha (a-set rows = pha rows, s-set rows zero, m-set rows only located in `gm[:, a_n] @ pha`, not expanded). "
     "The rows picked by `iddof[<positions within the g-set>]` are table rows only when every row of the table is in the "
     "g-set (no extra points): the theorems state the code's indexing literally, and the residual with an extra point "
-    "in front of a-set DOF is reported as finding formtran-se0-pha-extra-point-rows; a DOF named twice with gset=True "
-    "(pvdof not Nodup; formtran0_gset_repeated is the smallest instance) is finding "
-    "formtran-se0-gset-repeated-dof. formulvs / formdrm / addulvs are proved as products / rows / stored entries of "
+    "in front of a-set DOF is the open finding F69 (formtran-se0-pha-extra-point-rows); a DOF named twice with gset=True "
+    "gave a zero row before fix 061ccd9 (F68, repaired: formtran0_gset now holds for every request; regression family "
+    "formtran-se0-gset-repeated-dof). formulvs / formdrm / addulvs are proved as products / rows / stored entries of "
     "formtran levels (formulvs_chain_is_product: left-to-right product along the tree path; associativity of the list "
     "matrix product is not proved: ULVS(a->c) is proved to be the chain continued from ULVS(a->b) through the levels below b "
     "(dotChain_append, ulvsPath_split), that this equals ULVS(a->b) ULVS(b->c) is checked by the oracle only). usetprt: the returned "
@@ -1985,6 +1986,11 @@ def _oracle_locate(ctx, kind, inp):
                      dict(inp, kind=kind), [m, p1, p2], "list1 == [m[i] for i in pv1], list2 == [m[i] for i in pv2], orders kept")
 
 
+# found by this check while the matrix routines were modelled
+FIXED_F68 = "formtran-se0-gset-repeated-dof"  # repaired in /repo (fix: commit 061ccd9); kept as a regression guard
+OPEN_F69 = "formtran-se0-pha-extra-point-rows"  # open
+
+
 def _oracle_tran(ctx, inp):
     """formtran / formulvs / formdrm / addulvs restated on the API against the defining relations of the stored
     matrices (c18_tran.full_from_aset / chain_avec: u_o = GOT u_t + GOQ u_q, u_m = GM u_n, u_s = 0, level by level)"""
@@ -2064,15 +2070,15 @@ def _oracle_tran(ctx, inp):
             want = full[[keys.index(d) for d in req]]
             fam = tag + "-wrong-rows"
             if len(set(req)) < len(req) and se == 0 and gset:
-                fam = "formtran-se0-gset-repeated-dof"
+                fam = FIXED_F68
             extra_pt = se == 0 and not gset and 0 not in nas["phg"] and "e" in L
             if r[0] != "ok":
-                ctx.fail("formtran-se0-pha-extra-point-rows" if extra_pt else tag + "-raises",
+                ctx.fail(OPEN_F69 if extra_pt else tag + "-raises",
                          "%s raises %s on a request whose DOF are all recoverable" % (what, r[0]),
                          full_inp, r[0], "a matrix with one row per requested DOF")
                 return
             if extra_pt:
-                fam = "formtran-se0-pha-extra-point-rows"
+                fam = OPEN_F69
             tran, od = r[1]
             if np.ndim(tran) and np.asarray(tran).shape[1] != x.shape[0]:
                 ctx.fail(tag + "-wrong-columns", "the columns of the result must be the a-set (modal / g-set) DOF of the SE",
@@ -2231,16 +2237,16 @@ def _oracle_usetprt(ctx, inp):
 
 
 def _probe_findings(ctx):
-    """two fixed inputs on which the unchanged code contradicts `{DOF} = Tran * {…}` (found while the matrix routines
-    were modelled; each under its own family so that known_findings.json can list them)"""
+    """the inputs of the two findings made while the matrix routines were modelled: F68 (repaired in /repo by 061ccd9:
+    the rule is kept as a regression guard and passes on the repaired tree) and F69 (open)"""
     from props import c18_tran as T
     from props import c18_nas as N
 
     n2p, _ = _mods()
     masks = {k: int(v) for k, v in n2p.mkusetmask().items()}
     b, q, e = masks["b"], masks["q"], masks["e"]
-    # (1) formtran(nas, 0, dof, gset=True) with a DOF named twice: the first of the two rows is all zero
-    #     (`tran[:, pvdof] = np.eye(len(pvdof))`: the later column assignment wins)
+    # (1) F68, fixed: formtran(nas, 0, dof, gset=True) with a DOF named twice - before the fix the first of the two rows
+    #     was all zero (`tran[:, pvdof] = np.eye(len(pvdof))`: the later column assignment wins)
     nas = {"selist": [[0, 0]], "uset": {"0": [[1, d, b] for d in range(1, 7)] + [[2, 0, q]]}, "dnids": {}, "maps": {}, "upids": {}}
     plain = {"nas": nas, "mats": {}, "parent": {}, "expected_upa": {}}
     _oracle_tran(ctx, dict(plain, what="formtran", se=0, dof=[[1, 12], [1, 2], [2, 0]], gset=True))
@@ -2449,15 +2455,6 @@ def search(ctx, hints):
         ses = info["order"]
         for se in [0] + rng.sample(ses, min(2, len(ses))):
             py, _k, _sec, rt = T.gen_request(rng, nas["uset"][se], masks_)
-            if se == 0 and not isinstance(py[0], int):
-                # a DOF named twice (also through overlapping component lists) on the residual: see _probe_findings
-                seen_, py2 = set(), []
-                for i_, a_ in py:
-                    comps = "".join(ch for ch in str(a_) if (i_, int(ch)) not in seen_)
-                    seen_.update((i_, int(ch)) for ch in str(a_))
-                    if comps:
-                        py2.append([i_, int(comps)])
-                py = py2
             _oracle_tran(ctx, dict(plain, what="formtran", se=se, dof=py, gset=se == 0 and rng.random() < 0.4))
             ctx.count("oracle:formtran")
         for c in ses:
